@@ -136,7 +136,7 @@ LIK_INVARIANTS = ("TypeOK", "AlgEqDef", "NoRaise", "BlendOK", "MCNormalised", "P
 
 
 def lik_cfg(path, *, max_data, max_bg, max_mc, ngroups=1, w="WQuick", v="VQuick", bkg="BkgQuick", phi="PhiQuick", kinds=SPEC_KINDS,
-            paths=("grad", "value"), constr="NoConstr", gm=(1,), scales=(1,), ragged="pack", cached="noeff", only_defects=False,
+            paths=("grad", "value"), constr="NoConstr", gm=(1,), scales=(1,), ragged="sum", cached="eff", only_defects=False,
             emit_max=0, invariants=LIK_INVARIANTS):
     def sset(xs):
         return "{" + ", ".join('"%s"' % x if isinstance(x, str) else str(x) for x in xs) + "}"
